@@ -182,7 +182,9 @@ class MemoryPoolList {
     if (capacity_ == maxPools)
       return false;
     void* newPools;
-    auto newCapacity = PoolCount(capacity_ * 2);
+    // double the capacity, but never beyond maxPools (slot ids would wrap)
+    auto newCapacity =
+        capacity_ <= maxPools / 2 ? PoolCount(capacity_ * 2) : maxPools;
 
     if (pools_ == preallocatedPools_) {
       newPools = allocator->allocate(newCapacity * sizeof(Pool));
